@@ -1,0 +1,64 @@
+//go:build verif
+
+// Contracts for package char, read by /verif/vcgen (comment-only; adds no code).
+// Spec functions are written from the Spanner GoogleSQL lexical documentation, not from the code.
+
+package char
+
+// @ spec isDigit(c) = '0' <= c && c <= '9'
+// @ spec isHexDigit(c) = ('0' <= c && c <= '9') || ('a' <= c && c <= 'f') || ('A' <= c && c <= 'F')
+// @ spec isOctalDigit(c) = '0' <= c && c <= '7'
+// @ spec isLetter(c) = ('a' <= c && c <= 'z') || ('A' <= c && c <= 'Z')
+// @ spec isIdentStart(c) = isLetter(c) || c == '_'
+// @ spec isIdentPart(c) = isLetter(c) || isDigit(c) || c == '_'
+// @ spec isPrintASCII(c) = 32 <= c && c <= 126
+// @ spec upperOf(c) = ite('a' <= c && c <= 'z', c - 32, c)
+
+// @ func char.IsPrint
+// @   props C14 C15
+// @   ensures result == isPrintASCII(b)
+// @   modifies nothing
+
+// @ func char.IsDigit
+// @   props C14
+// @   ensures result == isDigit(c)
+// @   modifies nothing
+
+// @ func char.IsHexDigit
+// @   props C14
+// @   ensures result == isHexDigit(c)
+// @   modifies nothing
+
+// @ func char.IsOctalDigit
+// @   props C14
+// @   ensures result == isOctalDigit(c)
+// @   modifies nothing
+
+// @ func char.IsIdentStart
+// @   props C14 C15
+// @   ensures result == isIdentStart(c)
+// @   modifies nothing
+
+// @ func char.IsIdentPart
+// @   props C14 C15
+// @   ensures result == isIdentPart(c)
+// @   modifies nothing
+
+// @ func char.EqualFold
+// @   props C14 C16
+// @   ensures result ==> len(s) == len(t)
+// @   ensures result <==> (len(s) == len(t) && (forall k: 0 <= k && k < len(s) ==> upperOf(s[k]) == upperOf(t[k])))
+// @   modifies nothing
+// @   loop 0 invariant 0 <= i && i <= len(s) && len(s) == len(t)
+// @   loop 0 invariant forall k: 0 <= k && k < i ==> upperOf(s[k]) == upperOf(t[k])
+// @   loop 0 decreases len(s) - i
+
+// @ func char.ToUpper
+// @   props C14
+// @   ensures len(result) == len(s)
+// @   ensures forall k: 0 <= k && k < len(s) ==> result[k] == upperOf(s[k])
+// @   modifies nothing
+// @   loop 0 invariant 0 <= i && i <= len(s)
+// @   loop 0 invariant isNil(bs) ==> (forall k: 0 <= k && k < i ==> s[k] == upperOf(s[k]))
+// @   loop 0 invariant !isNil(bs) ==> len(bs) == i && (forall k: 0 <= k && k < i ==> bs[k] == upperOf(s[k]))
+// @   loop 0 decreases len(s) - i
